@@ -301,6 +301,51 @@ def collect(hashes: SeqOf(Int), conn: ConnT, rule_id: Str, config: DRYConfigT) -
             if meets(dedup_spec(stored(conn, hashes[0])), config) else []) + collect(hashes[1:], conn, rule_id, config)
 
 
+class _WitnessDb:
+    """Picklable stand-in for a sqlite3 connection: the in-memory DRY database holding `files` =
+    {path: [(hash, start, end)]} is (re)built through the real DRYCache.add_blocks on first use."""
+
+    def __init__(self, files):
+        self.files = files
+        self._db = None
+
+    def __getstate__(self):
+        return {"files": self.files, "_db": None}
+
+    def __repr__(self):
+        return f"<DRY database {self.files!r}>"
+
+    def _conn(self):
+        if self._db is None:
+            from pathlib import Path as _Path
+            from pyvc import native as _native
+            _native._ensure_repo_on_path()
+            from src.linters.dry.cache import CodeBlock, DRYCache
+            cache = DRYCache("memory")
+            for path, blocks in self.files.items():
+                cache.add_blocks(_Path(path), [CodeBlock(file_path=_Path(path), start_line=s, end_line=e,
+                                                         snippet=f"snippet {h}", hash_value=h) for h, s, e in blocks])
+            self._db = cache.db
+        return self._db
+
+    def execute(self, *args):
+        return self._conn().execute(*args)
+
+    def commit(self):
+        return self._conn().commit()
+
+
+def _collect_witness(files, min_occurrences):
+    """Model inputs of _collect_violations for a database holding `files`."""
+    return {"self": {"_deduplicator": {"_grouper": {}, "_filter": {}}, "_violation_builder": {}},
+            "storage": {"_cache": {"db": _WitnessDb(files), "_query_service": {}}}, "rule_id": "dry.duplicate-code",
+            "config": {"enabled": True, "min_duplicate_lines": 3, "min_duplicate_tokens": 30, "min_occurrences": min_occurrences,
+                       "python_min_occurrences": None, "typescript_min_occurrences": None, "javascript_min_occurrences": None,
+                       "storage_mode": "memory", "ignore_patterns": [], "detect_duplicate_constants": True,
+                       "min_constant_occurrences": 2, "python_min_constant_occurrences": None,
+                       "typescript_min_constant_occurrences": None}}
+
+
 @contract(VG + "_collect_violations", props=["C03"],
           types=dict(self=GeneratorT, storage=StorageT, rule_id=Str, config=DRYConfigT, violations=Violations, hash_value=Int,
                      blocks=Blocks, dedup_blocks=Blocks, block=CodeBlockT, violation=ViolationT),
@@ -317,6 +362,20 @@ class CollectViolations:
             reveal(collect, rest, storage._cache.db, rule_id, config) and \
             collect(db_dup_hashes(storage._cache.db), storage._cache.db, rule_id, config) == \
             violations + collect(rest, storage._cache.db, rule_id, config)
+
+    # Concrete scenarios taken from the property text ("the occurrence count is the number of distinct, NON-OVERLAPPING
+    # places"; "reported iff at least min_occurrences places"). When the solver cannot decide a loop obligation they are
+    # run on the REAL function; a post-condition failing natively on one of them is a genuine violation.
+    def witness_overlapping_windows_are_one_place():
+        # a run one line longer than the window: two same-hash windows (1-3, 2-4) in ONE file = one place => not reported
+        return _collect_witness({"a.py": [(7, 1, 3), (7, 2, 4)]}, min_occurrences=2)
+
+    def witness_places_below_threshold():
+        # the same self-overlapping run in two files with min_occurrences 3: two places < 3 => not reported
+        return _collect_witness({"a.py": [(7, 1, 3), (7, 2, 4)], "b.py": [(7, 5, 7), (7, 6, 8)]}, min_occurrences=3)
+
+    def witness_three_places_name_each_other():
+        return _collect_witness({"a.py": [(5, 10, 12)], "b.ts": [(5, 3, 5)], "pkg/c.py": [(5, 20, 22), (9, 1, 3)]}, min_occurrences=2)
 
     def inv1(storage, rule_id, config, violations, hash_value, dedup_blocks, rest0, rest, old):
         # inner loop over the members of one reported group; rest0 = hashes still to come in the outer loop
@@ -604,10 +663,9 @@ def _storage_roundtrip(repo, seed, cases):
     hashes are exactly the hash values inserted at least twice (each once) and find_duplicates_by_hash returns exactly
     the inserted blocks with that hash."""
     import random
-    import sys as _sys
     from pathlib import Path as _Path
-    if repo not in _sys.path:
-        _sys.path.insert(0, repo)
+    from pyvc import native as _native
+    _native._ensure_repo_on_path()  # `src` = the tree under verification ($VERIF_REPO), never another install
     from src.linters.dry.cache import CodeBlock, DRYCache
     rng = random.Random(seed)
     for case in range(cases):
@@ -696,8 +754,6 @@ py_single_statement = uf("dry_py_single_statement", [Str, Int, Int], Bool,
                          .is_single_statement(c, s, e))
 ts_single_statement = uf("dry_ts_single_statement", [Str, Int, Int], Bool,
                          concrete=lambda c, s, e: _real("src.linters.dry.typescript_statement_detector", "is_single_statement")(c, s, e))
-ts_include_block = uf("dry_ts_include_block", [Str, Int, Int], Bool,
-                      concrete=lambda c, s, e: _real("src.linters.dry.typescript_statement_detector", "should_include_block")(c, s, e))
 # verdict of the DEFAULT filter registry (the only one the analyzers are built with when none is injected)
 block_filtered = uf("dry_block_filtered", [CodeBlockT, Str], Bool,
                     concrete=lambda b, c: _real("src.linters.dry.block_filter", "create_default_registry")().should_filter_block(b, c))
@@ -722,13 +778,6 @@ class ShouldFilterBlock:
 class TsIsSingleStatement:
     def value(content, start_line, end_line):
         return ts_single_statement(content, start_line, end_line)
-
-
-@contract(TSD + "should_include_block", props=["C03"], types=dict(content=Str, start_line=Int, end_line=Int), returns=Bool,
-          assumed=HEURISTIC)
-class TsShouldIncludeBlock:
-    def value(content, start_line, end_line):
-        return ts_include_block(content, start_line, end_line)
 
 
 def block_of(file_path, w):
@@ -788,10 +837,8 @@ def dry_message_round_trip(ctx):
     """B tier (DESIGN.md 3/C03: 'P / B for the int() round trip'): the universally quantified lemma
     line_count_of(message_of(n, occ, locs)) == n needs int(str(n)) == n and first-occurrence reasoning over a
     symbolic decimal rendering, on which every back end gives up; checked natively on the REAL functions instead."""
-    import sys as _sys
-    repo = ctx["repo"]
-    if repo not in _sys.path:
-        _sys.path.insert(0, repo)
+    from pyvc import native as _native
+    _native._ensure_repo_on_path()  # `src` = the tree under verification ($VERIF_REPO)
     from src.linters.dry.violation_builder import DRYViolationBuilder
     from src.linters.dry.violation_filter import ViolationFilter
     from src.linters.dry.violation_generator import ViolationGenerator
@@ -825,3 +872,147 @@ def no_duplicate_hash_no_violation(storage, rule_id, config, ranges, r):
     reveal(subseq, r, reported_before_shared_filter(storage, rule_id, config, ranges))
     return reported_before_shared_filter(storage, rule_id, config, ranges) == [] and \
         implies(subseq(r, reported_before_shared_filter(storage, rule_id, config, ranges)), len(r) == 0)
+
+
+# =================================================================== TypeScript analyze(): which windows become blocks
+from contracts.c03_windows import track, twindows_from  # noqa: E402
+from contracts.c03_heuristics import hits_range, iface_ranges  # noqa: E402
+
+
+def _jsdoc_native(content):
+    an = _real("src.linters.dry.typescript_analyzer", "TypeScriptDuplicateAnalyzer")()
+    return sorted(an._get_jsdoc_ranges_from_content(content))
+
+
+ts_jsdoc_lines = uf("dry_ts_jsdoc_lines", [Str], SeqOf(Int), concrete=_jsdoc_native)
+
+
+@contract(TAN + "_get_jsdoc_ranges_from_content", props=["C03"], types=dict(self=TsAnalyzerT, content=Str), returns=SeqOf(Int),
+          assumed="tree-sitter parse + recursive walk collecting the line numbers of /** ... */ comments into a set "
+                  "(parser and sets are outside the engine); assumed to be a pure function of the content. Only "
+                  "membership of a line number is used by the caller")
+class TsGetJsdocRanges:
+    def value(content):
+        return ts_jsdoc_lines(content)
+
+
+def ts_windows(content, w):
+    """All rolling windows over the tracked statement lines of a TS/JS file (contracts.c03_windows)."""
+    return twindows_from(track([(line_num, line) for line_num, line in enumerate(content.split("\n"), start=1)
+                                if line_num not in ts_jsdoc_lines(content)], False), w, 0)
+
+
+@contract(TAN + "analyze", props=["C03"],
+          types=dict(self=TsAnalyzerT, file_path=PathT, content=Str, config=DRYConfigT), returns=Blocks)
+class TsAnalyze:
+    """Property (completeness of recording): EVERY rolling window of the file becomes a stored block, with its data
+    unchanged, unless it overlaps an interface/type declaration range, is classified as a single statement, or is
+    rejected by the filter registry -- no other window is lost."""
+    def requires(config):
+        return config.min_duplicate_lines >= 1  # DRYConfig.__post_init__
+
+    def value(self, file_path, content, config):
+        return [block_of(file_path, w) for w in
+                [(hash_val, start_line, end_line, snippet)
+                 for hash_val, start_line, end_line, snippet in ts_windows(content, config.min_duplicate_lines)
+                 if not hits_range(start_line, end_line, iface_ranges(content))
+                 and not ts_single_statement(content, start_line, end_line)]
+                if not block_filtered(block_of(file_path, w), content)]
+
+
+# =================================================================== Python analyze()
+AstT = Opaque("AstModule")
+LineIndexT = Opaque("LineToNodeIndex")
+
+
+def _py_ast_native(content):
+    import ast as _ast
+    try:
+        return _ast.parse(content)
+    except SyntaxError:
+        return None
+
+
+def _docstring_native(content):
+    an = _real("src.linters.dry.python_analyzer", "PythonDuplicateAnalyzer")()
+    return sorted(an._get_docstring_ranges_from_content(content))
+
+
+py_ast = uf("dry_py_ast", [Str], Opt(AstT), concrete=_py_ast_native)
+py_line_index = uf("dry_py_line_index", [Opt(AstT)], Opt(LineIndexT))
+py_docstring_lines = uf("dry_py_docstring_lines", [Str], SeqOf(Int), concrete=_docstring_native)
+PARSER = "CPython ast.parse / ast.walk (parser and tree walk are trusted; sets and dicts of node lists are outside the engine)"
+
+
+@contract(PAN + "_parse_content_safe", props=["C03"], types=dict(content=Str), returns=Opt(AstT), assumed=PARSER)
+class PyParseContentSafe:
+    def value(content):
+        return py_ast(content)
+
+
+@contract(SSD + "build_line_to_node_index", props=["C03"], types=dict(tree=Opt(AstT)), returns=Opt(LineIndexT), assumed=PARSER)
+class BuildLineToNodeIndex:
+    def value(tree):
+        return py_line_index(tree)
+
+
+@contract(PAN + "_get_docstring_ranges_from_content", props=["C03"], types=dict(self=PyAnalyzerT, content=Str),
+          returns=SeqOf(Int),
+          assumed=PARSER + "; assumed to be a pure function of the content (line numbers of docstring expressions); only "
+                           "membership of a line number is used by the caller")
+class PyGetDocstringRanges:
+    def value(content):
+        return py_docstring_lines(content)
+
+
+def py_windows(content, w):
+    return twindows_from(track([(line_num, line) for line_num, line in enumerate(content.split("\n"), start=1)
+                                if line_num not in py_docstring_lines(content)], False), w, 0)
+
+
+@contract(PAN + "analyze", props=["C03"],
+          types=dict(self=PyAnalyzerT, file_path=PathT, content=Str, config=DRYConfigT), returns=Blocks,
+          modifies=["self._statement_detector"], inline=["__init__"])
+class PyAnalyze:
+    """Property (completeness of recording): every rolling window of the file becomes a stored block, data unchanged,
+    unless it is classified as a single statement (a detector IS installed during the analysis) or rejected by the filter
+    registry; the per-analysis detector is cleared afterwards."""
+    def requires(config):
+        return config.min_duplicate_lines >= 1  # DRYConfig.__post_init__
+
+    def value(self, file_path, content, config):
+        return [block for hash_val, start_line, end_line, snippet in py_windows(content, config.min_duplicate_lines)
+                if (block := (block_of(file_path, (hash_val, start_line, end_line, snippet))
+                              if py_keeps(True, file_path, content, (hash_val, start_line, end_line, snippet)) else None))]
+
+    def ensures_detector_cleared(self):
+        return self._statement_detector is None
+
+
+# =================================================================== FileAnalyzer.analyze: language dispatch
+FAN = "src/linters/dry/file_analyzer.py::FileAnalyzer."
+FileAnalyzerT = Rec("FileAnalyzer", cls="src/linters/dry/file_analyzer.py::FileAnalyzer",
+                    _python_analyzer=PyAnalyzerT, _typescript_analyzer=TsAnalyzerT)
+
+
+@contract(FAN + "analyze", props=["C03"],
+          types=dict(self=FileAnalyzerT, file_path=PathT, content=Str, language=Str, config=DRYConfigT), returns=Blocks,
+          modifies=["self._python_analyzer._statement_detector"])
+class FileAnalyzerAnalyze:
+    """Property: Python files go to the Python analyzer, TypeScript AND JavaScript files to the TypeScript analyzer;
+    every other language records nothing."""
+    def requires(config):
+        return config.min_duplicate_lines >= 1
+
+    def value(self, file_path, content, language, config):
+        return ([block for hash_val, start_line, end_line, snippet in py_windows(content, config.min_duplicate_lines)
+                 if (block := (block_of(file_path, (hash_val, start_line, end_line, snippet))
+                               if py_keeps(True, file_path, content, (hash_val, start_line, end_line, snippet)) else None))]
+                if language == "python" else
+                ([block_of(file_path, w) for w in
+                  [(hash_val, start_line, end_line, snippet)
+                   for hash_val, start_line, end_line, snippet in ts_windows(content, config.min_duplicate_lines)
+                   if not hits_range(start_line, end_line, iface_ranges(content))
+                   and not ts_single_statement(content, start_line, end_line)]
+                  if not block_filtered(block_of(file_path, w), content)]
+                 if language in ("typescript", "javascript") else []))
